@@ -39,6 +39,7 @@ let parse_op (op : string) : rlop =
   | "aE" -> OAppendEnums (List.map (List.nth alpha_e) (idx_list arg))
   | "aF" -> OAppendFieldLists (List.map (List.nth alpha_f) (idx_list arg))
   | "fp" -> OFilter (parse_pred arg)
+  | "g" -> OFilter PTrue                       (* observation point: no effect on the list *)
   | _ -> OFilterByName (names arg)
 
 let join l = if l = [] then "-" else String.concat "," (List.map fp l)
@@ -56,13 +57,19 @@ let run (casefile : string) (obsfile : string) =
          | id :: opsf :: _ ->
            let opss = String.sub opsf 4 (String.length opsf - 4) in
            let ops = if opss = "" then [] else List.map parse_op (String.split_on_char ';' opss) in
-           let lens = ref [] in
-           let rl = List.fold_left (fun rl o -> let r = rl_step rl o in lens := string_of_int (int_of_nat (rl_len r)) :: !lens; r) rl_empty ops in
+           let lens = ref [] and mids = ref [] in
+           let opnames = if opss = "" then [] else String.split_on_char ';' opss in
+           let rl = List.fold_left2 (fun rl o name ->
+               let r = rl_step rl o in
+               lens := string_of_int (int_of_nat (rl_len r)) :: !lens;
+               if name = "g" then mids := String.concat "," (List.map fp (rl_get_registers r)) :: !mids;
+               r) rl_empty ops opnames in
            let g = rl_get_registers rl in
            if g <> [] then incr nontrivial;
-           let model = Printf.sprintf "%s len=%s N=%s T=%s E=%s F=%s G=%s" id
+           let model = Printf.sprintf "%s len=%s N=%s T=%s E=%s F=%s M=%s G=%s" id
                (if !lens = [] then "-" else String.concat "," (List.rev !lens))
-               (join rl.l_numbers) (join rl.l_texts) (join rl.l_enums) (join rl.l_fieldlists) (join g) in
+               (join rl.l_numbers) (join rl.l_texts) (join rl.l_enums) (join rl.l_fieldlists)
+               (if !mids = [] then "-" else String.concat "|" (List.rev !mids)) (join g) in
            if model <> ol then begin
              incr mism; if !mism <= 10 then Printf.printf "MISMATCH %s\n  impl =%s\n  model=%s\n" line ol model end;
            (* direct judge on the implementation's combined view: ascending, stable, same multiset *)
